@@ -23,7 +23,7 @@ Verdict(r) ==
       want == IF r.op = "stamp" THEN { W.nodes[n].name : n \in Nodes }
               ELSE { W.nodes[n].name : n \in { m \in Nodes : Holds(r.op, T(m), r.a, r.b) } }
       stampOk == r.op # "stamp" \/
-                 \A i \in 1 .. Len(rows) : \A n \in Nodes : W.nodes[n].name = rows[i][1] => rows[i][2] = StampText(T(n), r.off)
+                 \A i \in 1 .. Len(rows) : \A n \in Nodes : W.nodes[n].name = rows[i][1] => rows[i][2] = StampText(T(n), ZoneOffAt(r.off, T(n)))
       y == IF r.obs.q.timed_out THEN "timeout"
            ELSE IF r.obs.q.panic THEN "crash"
            ELSE IF r.obs.q.status = 2 THEN "rejected-as-malformed"
